@@ -12,6 +12,31 @@ NOTE = ('Trusted base: python-engineio, asyncio, threading, json/msgpack/'
         'not proof: a clean batch is evidence for the explored seeds.')
 
 CHECKS = {
+    'C03': ('DESIGN 4/C03',
+            'Seeded search over histories of room operations, lifecycle '
+            'events and emits (to = None / room / list / sid, skip_sid = None '
+            '/ sid / list) for 2-6 wire peers on 1-3 namespaces against the '
+            'real Manager (thread world) and AsyncManager (asyncio world); '
+            'oracle = reference room model: exact per-connection recipient '
+            'multiset for every emit and rooms() equality after every op.'),
+    'C04': ('DESIGN 4/C04',
+            'Seeded search over connection-lifecycle histories (CONNECT with '
+            'generated auth and connect-handler behaviours, DISCONNECT, '
+            'transport loss, server.disconnect, ping timeout after a clock '
+            'jump) with 2-3 concurrent terminating causes at seeded offsets '
+            'while handlers and sends are suspended (asyncio server; the '
+            'threaded server sequentially); oracle = exactly-once history '
+            'checks, admissible reasons, freshness, no delivery afterwards, '
+            'other namespaces unaffected.'),
+    'C20': ('DESIGN 4/C20',
+            'Seeded search over thread interleavings (uniform random and PCT '
+            'd=1..3) of 2-3 concurrent terminating actions on one sid of the '
+            'threaded server, pre-empting at every manager / engine.io access '
+            'and, in a share of the runs, at every source line of server.py / '
+            'base_manager.py / manager.py; oracle = handler exactly once, no '
+            'exception in any thread, no residue. The known check-then-mark '
+            'window is reported as KNOWN-FINDING by its history signature; '
+            'any other violation is a VIOLATION.'),
     'C05': ('DESIGN 4/C05',
             'Seeded search over histories of EVENT/BINARY_EVENT frames from '
             '2-4 wire peers with colliding ack ids, connects, disconnects and '
